@@ -115,7 +115,7 @@ def main():
     print('checks', len(checks), 'not_applicable', len(na))
 
 
-HOOK_COMMITS = ['c01a04f', 'a6c66f8', '0b44310', '30cf8c9', '6b2b0dc', '2737716', 'e723be2']
+HOOK_COMMITS = ['c01a04f', 'a6c66f8', '0b44310', '30cf8c9', '6b2b0dc', '2737716', 'e723be2', '520cc98']
 
 if __name__ == '__main__':
     main()
